@@ -326,6 +326,10 @@ def run_sign(ctx):
     r = ctx.rng.child("sign").np
     cols = [[1.0, -1.0], [-1.0, 1.0], [-2.0, -2.0], [2.0, 2.0], [0.0, 0.0], [-3.0, 2.0, 1.0], [3.0, -3.0, 0.5], [-1.0], [1.0],
             [1e-300, -1e-300], [-5.0, -1.0], [5.0, 1.0]]
+    # near-ties far above double-precision rounding: the two extreme loadings differ by 1e-7 .. 1e-9 relative, in either direction, at several scales
+    for d in (1e-7, 2e-8, 3e-9):
+        for sc in (1.0, 1e-6, 1e5):
+            cols += [[sc, -sc * (1 + d)], [sc * (1 + d), -sc], [-sc * (1 + d), 0.3 * sc, sc], [sc * 0.5, sc * (1 + d), -sc]]
     for i in range(ctx.n(60, 600)):
         k = int(r.integers(1, 7))
         v = r.standard_normal(k) * 10.0 ** r.integers(-6, 7)
